@@ -68,6 +68,9 @@ inductive SOp where
   | cs (stroking : Bool) (name : String)                       -- CS / cs
   | sc (k : OpK) (stroking : Bool) (xs : List Rat) (pat : Option String)   -- SC SCN sc scn
   | q | Q | cm (a b c d e f : Rat)
+  /-- an operator that takes numbers, with the right NUMBER of operands of which at least one is not a
+  number (a name, an array): it is ignored as a whole -/
+  | bad (k : OpK) (args : List Operand)
 deriving Repr
 
 /-- The graphics state of ISO 32000-1 table 52 restricted to the parameters the property names. -/
@@ -181,13 +184,19 @@ def stepS (cs : SpaceMap) (st : SState) : SOp → SState
     | none => st
   | .sc _ stroking xs pat =>
     match pat with
-    | some p => { st with g := setCol st.g stroking (.pattern p xs) }
+    | some p =>
+      -- a name is a pattern name in a Pattern space; elsewhere it is an operand that is not a number
+      -- and the operator is ignored
+      if (if stroking then st.g.sspace else st.g.nspace).pattern then
+        { st with g := setCol st.g stroking (.pattern p xs) }
+      else st
     | none => { st with g := setCol st.g stroking (.comps xs) }
   | .q => { st with stack := st.g :: st.stack }
   | .Q => match st.stack with
     | g :: rest => { st with g := g, stack := rest }
     | [] => st
   | .cm a b c d e f => { st with g := { st.g with ctm := mult_matrix (a, b, c, d, e, f) st.g.ctm } }
+  | .bad _ _ => st
 
 def runS (cs : SpaceMap) : List SOp → SState → SState
   | [], st => st
@@ -198,7 +207,22 @@ def runS (cs : SpaceMap) : List SOp → SState → SState
 /-- Is the operand list of `sc/scn/SC/SCN` the one the current colour space asks for? -/
 def scOk (sp : Space) (k : OpK) (xs : List Rat) (pat : Option String) : Bool :=
   if sp.pattern then pat.isSome && (k == .scn || k == .SCN)
-  else pat.isNone && xs.length == sp.n
+  else sp.n != 0 && ((pat.isNone && xs.length == sp.n) || (pat.isSome && xs.length + 1 == sp.n))
+
+/-- Operand count of the operators whose operands are all numbers (`none`: not such an operator;
+the `sc` family takes the count of the current colour space). -/
+def numArity (stroke nonstroke : Space) : OpK → Option Nat
+  | .m => some 2 | .l => some 2 | .c => some 6 | .v => some 4 | .y => some 4 | .re => some 4
+  | .w => some 1 | .cm => some 6
+  | .g => some 1 | .G => some 1 | .rg => some 3 | .RG => some 3 | .k => some 4 | .K => some 4
+  | .sc => if nonstroke.pattern then none else some nonstroke.n
+  | .scn => if nonstroke.pattern then none else some nonstroke.n
+  | .SC => if stroke.pattern then none else some stroke.n
+  | .SCN => if stroke.pattern then none else some stroke.n
+  | _ => none
+
+def badOk (st : SGState) (k : OpK) (args : List Operand) : Bool :=
+  (args.mapM safeFloat).isNone && numArity st.sspace st.nspace k == some args.length
 
 /-- ISO 32000-1 table 60: painting operator -> (close first, stroke, fill, even-odd rule). -/
 def paintFlags : OpK → Option (Bool × Bool × Bool × Bool)
@@ -229,6 +253,7 @@ def opOk (cs : SpaceMap) (st : SState) : SOp → Bool
   | .paint k close stroke fill evenodd => paintOk k close stroke fill evenodd && (!close || !st.path.isEmpty)
   | .noop1 k o => noopOk k o
   | .cs _ name => (cs.lookup name).isSome
+  | .bad k args => badOk st.g k args
   | .sc k stroking xs pat =>
     [OpK.sc, .scn, .SC, .SCN].contains k && (stroking == (k == .SC || k == .SCN)) &&
     scOk (if stroking then st.g.sspace else st.g.nspace) k xs pat
@@ -285,6 +310,7 @@ def tokens : SOp → List Tok
   | .q => [.op .q]
   | .Q => [.op .Q]
   | .cm a b c d e f => nums [a, b, c, d, e, f] ++ [.op .cm]
+  | .bad k args => args.map Tok.operand ++ [.op k]
 
 def progTokens (prog : List SOp) : List Tok := prog.flatMap tokens
 
@@ -321,12 +347,17 @@ def parseOp (k : OpK) (args : List Operand) : Option SOp :=
     let stroking := k == .SC || k == .SCN
     match args.getLast? with
     | some (.name p) =>
-      (args.dropLast.mapM safeFloat).map (fun xs => .sc k stroking xs (some p))
-    | _ => (args.mapM safeFloat).map (fun xs => .sc k stroking xs none)
+      match args.dropLast.mapM safeFloat with
+      | some xs => some (.sc k stroking xs (some p))
+      | none => some (.bad k args)
+    | _ =>
+      match args.mapM safeFloat with
+      | some xs => some (.sc k stroking xs none)
+      | none => some (.bad k args)
   | .q, [] => some .q
   | .Q, [] => some .Q
   | .cm, [.num a, .num b, .num c, .num d, .num e, .num f] => some (.cm a b c d e f)
-  | _, _ => none
+  | k, args => if (args.mapM safeFloat).isNone then some (.bad k args) else none
 
 def parseProg (acc : List Operand) : List Tok → Option (List SOp)
   | [] => if acc.isEmpty then some [] else none
